@@ -1,4 +1,13 @@
 //! C16 — No state is left behind once activity stops; tables are bounded by live objects
+//!
+//! Generated: workloads of overlapping scenarios on one endpoint (see `Kind`): client / server transactions, UAS and UAC
+//! calls, floods of unmatched messages (incl. INVITEs the application abandons unanswered), connections in both directions
+//! with IPv4 / IPv6 / IPv4-mapped addresses that are used, idle, closed by the peer or fed garbage, STUN requests; requests
+//! of the peer optionally carry peer-chosen lifetimes (`Lifetimes`: Expires / Session-Expires / Min-SE, up to 2^32-1 s);
+//! every scenario's application objects may be dropped early.
+//! Oracle: (quiescence) all seven table sizes are 0 after every handle is dropped and 64*T1 + 32 s + T4 + 64 s passed;
+//! (bound) at every 500 ms sample each table <= a per-scenario cap computed from the case alone (`bound`).
+//! Not asserted: what is on the wire, what the stack does with the peer's lifetime headers, exact table sizes.
 
 use crate::engine::*;
 use crate::refmodel::ref_stun::{self, RAddr, RAttr, RClass, RMsg};
@@ -48,14 +57,85 @@ pub enum FloodKind {
     UnmatchedCancels,
     UnknownRequests,
     Retransmissions,
+    /// INVITEs the application takes (dialog + acceptor) and gives up on at once without answering
+    AbandonedInvites,
+}
+
+/// Lifetime headers the peer puts on its request. They are the peer's choice (any u32), so whatever the stack
+/// derives from them is not one of "the protocol timers" the property waits for: an object the application has
+/// dropped must not stay in a table because the peer asked for a long lifetime.
+#[derive(Serialize, Deserialize, Clone, Copy, Debug, Hash, PartialEq, Eq, Default)]
+pub struct Lifetimes {
+    /// `Expires: n` (RFC 3261 13.3.1 / 20.19: how long the invitation / message is valid)
+    #[serde(default)]
+    pub expires: Option<u32>,
+    /// `Session-Expires: n` (RFC 4028)
+    #[serde(default)]
+    pub session_expires: Option<u32>,
+    /// `Min-SE: n` (RFC 4028)
+    #[serde(default)]
+    pub min_se: Option<u32>,
+}
+
+impl Lifetimes {
+    fn headers(&self) -> Vec<String> {
+        let mut h = vec![];
+        if let Some(n) = self.expires {
+            h.push(format!("Expires: {n}"));
+        }
+        if let Some(n) = self.session_expires {
+            h.push(format!("Session-Expires: {n}"));
+        }
+        if let Some(n) = self.min_se {
+            h.push(format!("Min-SE: {n}"));
+        }
+        h
+    }
+    fn any(&self) -> bool {
+        *self != Lifetimes::default()
+    }
+}
+
+/// address family of both ends of a connection as the stream reports them
+#[derive(Serialize, Deserialize, Clone, Copy, Debug, Hash, PartialEq, Eq, Default)]
+pub enum Fam {
+    #[default]
+    V4,
+    V6,
+    /// IPv4 peer of a dual-stack socket: `::ffff:a.b.c.d` on both ends
+    V4Mapped,
+}
+
+/// what happens on a connection
+#[derive(Serialize, Deserialize, Clone, Copy, Debug, Hash, PartialEq, Eq, Default)]
+pub enum ConnUse {
+    /// inbound: the peer sends an OPTIONS and an INVITE nobody wants; outbound: the application holds the handle
+    #[default]
+    Requests,
+    /// inbound: the peer never sends a byte; outbound: the application lets go of the handle at once
+    Idle,
+    /// like Requests, then the peer closes its sending side 1 s later
+    PeerCloses,
+    /// the peer sends bytes that are not SIP 1 s after the connection was set up
+    Garbage,
 }
 
 #[derive(Serialize, Deserialize, Clone, Copy, Debug, Hash, PartialEq, Eq)]
 pub enum Kind {
     ClientNonInvite { reply: Reply, delay: u64 },
     ClientInvite { reply: Reply, delay: u64 },
-    ServerRequest { copies: u8 },
-    ServerCall { app: CallApp, cancel_at: Option<u64>, bye_at: Option<u64> },
+    ServerRequest {
+        copies: u8,
+        #[serde(default)]
+        life: Lifetimes,
+    },
+    ServerCall {
+        app: CallApp,
+        cancel_at: Option<u64>,
+        bye_at: Option<u64>,
+        #[serde(default)]
+        life: Lifetimes,
+    },
     UacCall {
         ring: bool,
         reply: Reply,
@@ -63,8 +143,20 @@ pub enum Kind {
         #[serde(default = "yes")]
         contact: bool,
     },
-    Flood { kind: FloodKind, n: u16 },
-    Conn { inbound: bool },
+    Flood {
+        kind: FloodKind,
+        n: u16,
+        /// on the requests of the flood (request floods only)
+        #[serde(default)]
+        life: Lifetimes,
+    },
+    Conn {
+        inbound: bool,
+        #[serde(default)]
+        fam: Fam,
+        #[serde(default)]
+        usage: ConnUse,
+    },
     Stun { answered: bool },
 }
 
@@ -90,25 +182,59 @@ fn reply_strategy() -> BoxedStrategy<Reply> {
     prop_oneof![Just(Reply::Never), Just(Reply::Provisional), Just(Reply::Ok), Just(Reply::Fail)].boxed()
 }
 
+/// peer-chosen lifetimes: none (4 in 10), or one / several of Expires, Session-Expires, Min-SE with values from
+/// "already over" through "within the observation window" to "far longer than every protocol timer" (up to 2^32-1 s)
+fn life_strategy() -> BoxedStrategy<Lifetimes> {
+    let secs = || prop_oneof![Just(0u32), Just(3u32), Just(30u32), Just(120u32), Just(400u32), Just(3600u32), Just(86_400u32), Just(u32::MAX)];
+    prop_oneof![
+        4 => Just(Lifetimes::default()),
+        3 => secs().prop_map(|n| Lifetimes { expires: Some(n), ..Default::default() }),
+        1 => prop_oneof![Just(90u32), Just(1800u32), Just(u32::MAX)].prop_map(|n| Lifetimes { session_expires: Some(n), ..Default::default() }),
+        1 => prop_oneof![Just(90u32), Just(7200u32), Just(u32::MAX)].prop_map(|n| Lifetimes { min_se: Some(n), ..Default::default() }),
+        1 => (secs(), prop_oneof![Just(90u32), Just(u32::MAX)], prop_oneof![Just(90u32), Just(u32::MAX)])
+            .prop_map(|(e, se, m)| Lifetimes { expires: Some(e), session_expires: Some(se), min_se: Some(m) }),
+    ]
+    .boxed()
+}
+
+fn fam_strategy() -> BoxedStrategy<Fam> {
+    prop_oneof![2 => Just(Fam::V4), 1 => Just(Fam::V6), 2 => Just(Fam::V4Mapped)].boxed()
+}
+
+fn conn_use_strategy() -> BoxedStrategy<ConnUse> {
+    prop_oneof![3 => Just(ConnUse::Requests), 2 => Just(ConnUse::Idle), 2 => Just(ConnUse::PeerCloses), 1 => Just(ConnUse::Garbage)].boxed()
+}
+
+const FLOOD_KINDS: [FloodKind; 6] = [
+    FloodKind::OrphanResponses,
+    FloodKind::StrayAcks,
+    FloodKind::UnmatchedCancels,
+    FloodKind::UnknownRequests,
+    FloodKind::Retransmissions,
+    FloodKind::AbandonedInvites,
+];
+
 fn kind_strategy() -> BoxedStrategy<Kind> {
     let delay = prop_oneof![Just(1u64), Just(300u64), Just(700u64), Just(5000u64), Just(33_000u64)];
     prop_oneof![
         2 => (reply_strategy(), delay.clone()).prop_map(|(reply, delay)| Kind::ClientNonInvite { reply, delay }),
         2 => (reply_strategy(), delay.clone()).prop_map(|(reply, delay)| Kind::ClientInvite { reply, delay }),
-        2 => (0u8..4).prop_map(|copies| Kind::ServerRequest { copies }),
+        2 => (0u8..4, life_strategy()).prop_map(|(copies, life)| Kind::ServerRequest { copies, life }),
         4 => (
             prop_oneof![Just(CallApp::Accept { ack: true }), Just(CallApp::Accept { ack: false }), Just(CallApp::Reject), Just(CallApp::DropAcceptor), Just(CallApp::Hold)],
             prop::option::of(prop_oneof![Just(1u64), Just(40u64), Just(600u64)]),
             prop::option::of(prop_oneof![Just(2u64), Just(50u64), Just(2000u64)]),
+            life_strategy(),
         )
-            .prop_map(|(app, cancel_at, bye_at)| Kind::ServerCall { app, cancel_at, bye_at }),
+            .prop_map(|(app, cancel_at, bye_at, life)| Kind::ServerCall { app, cancel_at, bye_at, life }),
         3 => (any::<bool>(), reply_strategy(), prop::bool::weighted(0.75)).prop_map(|(ring, reply, contact)| Kind::UacCall { ring, reply, contact }),
         3 => (
-            prop_oneof![Just(FloodKind::OrphanResponses), Just(FloodKind::StrayAcks), Just(FloodKind::UnmatchedCancels), Just(FloodKind::UnknownRequests), Just(FloodKind::Retransmissions)],
+            prop::sample::select(FLOOD_KINDS.to_vec()),
             prop_oneof![Just(100u16), Just(300u16), Just(1000u16), Just(2000u16)],
+            life_strategy(),
         )
-            .prop_map(|(kind, n)| Kind::Flood { kind, n }),
-        2 => any::<bool>().prop_map(|inbound| Kind::Conn { inbound }),
+            .prop_map(|(kind, n, life)| Kind::Flood { kind, n, life }),
+        3 => (any::<bool>(), fam_strategy(), conn_use_strategy()).prop_map(|(inbound, fam, usage)| Kind::Conn { inbound, fam, usage }),
         2 => any::<bool>().prop_map(|answered| Kind::Stun { answered }),
     ]
     .boxed()
@@ -133,26 +259,87 @@ pub fn strategy() -> BoxedStrategy<Case> {
         .boxed()
 }
 
-/// every flood kind in isolation and next to one live scenario of each kind
+/// every flood kind in isolation and next to one live scenario of each kind; request floods also with a peer-chosen lifetime
 pub fn flood_cases(_tier: Tier) -> Vec<Case> {
     let mut out = vec![];
+    let none = Lifetimes::default();
     let companions: Vec<Option<Kind>> = vec![
         None,
         Some(Kind::ClientNonInvite { reply: Reply::Never, delay: 1 }),
-        Some(Kind::ServerCall { app: CallApp::Hold, cancel_at: None, bye_at: None }),
+        Some(Kind::ServerCall { app: CallApp::Hold, cancel_at: None, bye_at: None, life: none }),
         Some(Kind::UacCall { ring: true, reply: Reply::Ok, contact: true }),
         Some(Kind::UacCall { ring: true, reply: Reply::Ok, contact: false }),
-        Some(Kind::ServerCall { app: CallApp::Accept { ack: true }, cancel_at: None, bye_at: None }),
+        Some(Kind::ServerCall { app: CallApp::Accept { ack: true }, cancel_at: None, bye_at: None, life: none }),
     ];
-    for kind in [FloodKind::OrphanResponses, FloodKind::StrayAcks, FloodKind::UnmatchedCancels, FloodKind::UnknownRequests, FloodKind::Retransmissions] {
+    for kind in FLOOD_KINDS {
         for n in [100u16, 1000, 2000] {
             for (i, comp) in companions.iter().enumerate() {
                 let mut atoms = vec![];
                 if let Some(c) = comp {
                     atoms.push(Atom { start: 0, kind: *c, drop_at: None });
                 }
-                atoms.push(Atom { start: 5, kind: Kind::Flood { kind, n }, drop_at: None });
+                atoms.push(Atom { start: 5, kind: Kind::Flood { kind, n, life: none }, drop_at: None });
                 out.push(Case { atoms, rng: i as u8 });
+            }
+        }
+    }
+    for kind in [FloodKind::UnknownRequests, FloodKind::UnmatchedCancels, FloodKind::Retransmissions, FloodKind::AbandonedInvites] {
+        for (j, life) in enum_lifetimes().into_iter().enumerate().skip(1) {
+            out.push(Case { atoms: vec![Atom { start: 5, kind: Kind::Flood { kind, n: 300, life }, drop_at: None }], rng: j as u8 });
+        }
+    }
+    out
+}
+
+fn enum_lifetimes() -> Vec<Lifetimes> {
+    let d = Lifetimes::default();
+    vec![
+        d,
+        Lifetimes { expires: Some(0), ..d },
+        Lifetimes { expires: Some(3), ..d },
+        Lifetimes { expires: Some(120), ..d },
+        Lifetimes { expires: Some(3600), ..d },
+        Lifetimes { expires: Some(u32::MAX), ..d },
+        Lifetimes { session_expires: Some(90), ..d },
+        Lifetimes { session_expires: Some(u32::MAX), ..d },
+        Lifetimes { min_se: Some(u32::MAX), ..d },
+        Lifetimes { expires: Some(7200), session_expires: Some(1800), min_se: Some(90) },
+    ]
+}
+
+/// incoming calls: what the application does x peer-chosen lifetimes x when the application lets go x peer CANCEL
+pub fn call_cases(_tier: Tier) -> Vec<Case> {
+    let mut out = vec![];
+    for app in [CallApp::Accept { ack: true }, CallApp::Accept { ack: false }, CallApp::Reject, CallApp::DropAcceptor, CallApp::Hold] {
+        for life in enum_lifetimes() {
+            for drop_at in [None, Some(0u64), Some(600), Some(40_000)] {
+                for cancel_at in [None, Some(40u64)] {
+                    let call = Kind::ServerCall { app, cancel_at, bye_at: None, life };
+                    out.push(Case { atoms: vec![Atom { start: 0, kind: call, drop_at }], rng: out.len() as u8 });
+                }
+            }
+        }
+    }
+    // the same request outside a call
+    for life in enum_lifetimes() {
+        for copies in [0u8, 2] {
+            out.push(Case { atoms: vec![Atom { start: 0, kind: Kind::ServerRequest { copies, life }, drop_at: None }], rng: out.len() as u8 });
+        }
+    }
+    out
+}
+
+/// connections: direction x address family x what happens on it x when the application lets go
+pub fn conn_cases(_tier: Tier) -> Vec<Case> {
+    let mut out = vec![];
+    for inbound in [true, false] {
+        for fam in [Fam::V4, Fam::V6, Fam::V4Mapped] {
+            for usage in [ConnUse::Requests, ConnUse::Idle, ConnUse::PeerCloses, ConnUse::Garbage] {
+                for drop_at in [None, Some(0u64), Some(4000), Some(40_000)] {
+                    for start in [0u64, 400] {
+                        out.push(Case { atoms: vec![Atom { start, kind: Kind::Conn { inbound, fam, usage }, drop_at }], rng: out.len() as u8 });
+                    }
+                }
             }
         }
     }
@@ -173,7 +360,9 @@ impl Layer for AcceptLayer {
         "accept"
     }
     async fn receive(&self, endpoint: &Endpoint, request: MayTake<'_, IncomingRequest>) {
-        if request.line.method != Method::INVITE || !request.base_headers.call_id.0.starts_with("call-") {
+        let keep = request.base_headers.call_id.0.starts_with("call-");
+        let abandon = request.base_headers.call_id.0.starts_with("abandon-");
+        if request.line.method != Method::INVITE || !(keep || abandon) {
             return;
         }
         let invite = request.take();
@@ -181,7 +370,10 @@ impl Layer for AcceptLayer {
         let contact: SipUri = "sip:ezk@10.0.0.1".parse().unwrap();
         let Ok(dialog) = Dialog::new_server(endpoint.clone(), self.dialog_layer, &invite, Contact::new(NameAddr::uri(contact))) else { return };
         if let Ok(acceptor) = Acceptor::new(dialog, self.invite_layer, invite) {
-            self.calls.lock().insert(call_id, acceptor);
+            if keep {
+                self.calls.lock().insert(call_id, acceptor);
+            }
+            // abandon-*: the application gives up on the call right here: the acceptor (its only object) is dropped unanswered
         }
     }
 }
@@ -303,18 +495,20 @@ async fn run_atom(ctx: Ctx, i: usize, atom: Atom) {
                 }
             }
         }
-        Kind::ServerRequest { copies } => {
-            let bytes = peer_req("MESSAGE", &format!("z9hG4bKsrv{i}"), &format!("srv-{i}"), 1, None, &[]);
+        Kind::ServerRequest { copies, life } => {
+            let bytes = peer_req("MESSAGE", &format!("z9hG4bKsrv{i}"), &format!("srv-{i}"), 1, None, &life.headers());
             inject(&endpoint, &udp, peer, &bytes);
             for k in 0..copies {
                 clock.until(t0 + 500 * (1 << k.min(3)) as u64).await;
                 inject(&endpoint, &udp, peer, &bytes);
             }
         }
-        Kind::ServerCall { app, cancel_at, bye_at } => {
+        Kind::ServerCall { app, cancel_at, bye_at, life } => {
             let call_id = format!("call-{i}");
             let branch = format!("z9hG4bKcall{i}");
-            inject(&endpoint, &udp, peer, &peer_req("INVITE", &branch, &call_id, 1, None, &["Supported: timer".into()]));
+            let mut extra = vec!["Supported: timer".to_string()];
+            extra.extend(life.headers());
+            inject(&endpoint, &udp, peer, &peer_req("INVITE", &branch, &call_id, 1, None, &extra));
             settle().await;
             let Some(mut acceptor) = calls.lock().remove(&call_id) else { return };
             // the peer's side of the call
@@ -459,9 +653,10 @@ async fn run_atom(ctx: Ctx, i: usize, atom: Atom) {
             drop(early_tasks);
             drop((kept_sessions, initiator));
         }
-        Kind::Flood { kind, n } => {
+        Kind::Flood { kind, n, life } => {
+            let lh = life.headers();
             // a transaction the retransmission flood can hit
-            let base = peer_req("MESSAGE", &format!("z9hG4bKflood{i}"), &format!("flood-{i}"), 1, None, &[]);
+            let base = peer_req("MESSAGE", &format!("z9hG4bKflood{i}"), &format!("flood-{i}"), 1, None, &lh);
             if kind == FloodKind::Retransmissions {
                 inject(&endpoint, &udp, peer, &base);
                 settle().await;
@@ -474,9 +669,14 @@ async fn run_atom(ctx: Ctx, i: usize, atom: Atom) {
                     )
                     .into_bytes(),
                     FloodKind::StrayAcks => peer_req("ACK", &format!("z9hG4bKack{i}x{k}"), &format!("stray-{i}-{k}"), 1, Some("nosuch"), &[]),
-                    FloodKind::UnmatchedCancels => request_text("CANCEL", "sip:ezk@10.0.0.1", &[format!("SIP/2.0/UDP 192.0.2.9:5060;branch=z9hG4bKcan{i}x{k}")], "<sip:peer@192.0.2.9>;tag=ptag", "<sip:ezk@10.0.0.1>", &format!("can-{i}-{k}"), 1, "CANCEL", &[], b""),
-                    FloodKind::UnknownRequests => peer_req(if k % 3 == 0 { "INVITE" } else { "INFO" }, &format!("z9hG4bKunk{i}x{k}"), &format!("unk-{i}-{k}"), 1, if k % 2 == 0 { Some("nosuch") } else { None }, &[]),
+                    FloodKind::UnmatchedCancels => request_text("CANCEL", "sip:ezk@10.0.0.1", &[format!("SIP/2.0/UDP 192.0.2.9:5060;branch=z9hG4bKcan{i}x{k}")], "<sip:peer@192.0.2.9>;tag=ptag", "<sip:ezk@10.0.0.1>", &format!("can-{i}-{k}"), 1, "CANCEL", &lh, b""),
+                    FloodKind::UnknownRequests => peer_req(if k % 3 == 0 { "INVITE" } else { "INFO" }, &format!("z9hG4bKunk{i}x{k}"), &format!("unk-{i}-{k}"), 1, if k % 2 == 0 { Some("nosuch") } else { None }, &lh),
                     FloodKind::Retransmissions => base.clone(),
+                    FloodKind::AbandonedInvites => {
+                        let mut extra = vec!["Supported: timer".to_string()];
+                        extra.extend(lh.iter().cloned());
+                        peer_req("INVITE", &format!("z9hG4bKabn{i}x{k}"), &format!("abandon-{i}-{k}"), 1, None, &extra)
+                    }
                 };
                 inject(&endpoint, &udp, peer, &bytes);
                 if k % 64 == 63 {
@@ -484,9 +684,8 @@ async fn run_atom(ctx: Ctx, i: usize, atom: Atom) {
                 }
             }
         }
-        Kind::Conn { inbound } => {
+        Kind::Conn { .. } => {
             // handled by the caller (needs the dialer / factory): see run()
-            let _ = inbound;
         }
         Kind::Stun { answered } => {
             let server: SocketAddr = "198.51.100.3:3478".parse().unwrap();
@@ -554,7 +753,8 @@ pub fn run(case: &Case) -> Observed {
         let mut tasks = vec![];
         let mut drops: Vec<(u64, usize)> = vec![];
         let mut conn_handles: HashMap<usize, TpHandle> = HashMap::new();
-        let mut peer_conns = vec![];
+        let mut peer_conns: HashMap<usize, PeerConn> = HashMap::new();
+        let mut conn_followups: Vec<(u64, usize, ConnUse)> = vec![];
         for (i, atom) in case.atoms.iter().enumerate() {
             if let Some(d) = atom.drop_at {
                 drops.push((atom.start + d, i));
@@ -569,28 +769,60 @@ pub fn run(case: &Case) -> Observed {
         while t <= active_until {
             clock.until(t).await;
             settle().await;
-            // connection scenarios are driven from here (they need the dialer / a select)
+            // connection scenarios are driven from here (they need the dialer / the factory's peer ends)
             for (i, atom) in case.atoms.iter().enumerate() {
-                if let Kind::Conn { inbound } = atom.kind {
+                if let Kind::Conn { inbound, fam, usage } = atom.kind {
                     if atom.start <= t && !conn_started.contains(&i) {
                         conn_started.push(i);
+                        // both ends as the stream reports them (ezk's end: what a listener bound to the wildcard address sees)
+                        let (ezk_ip, peer_ip) = match fam {
+                            Fam::V4 => ("10.0.0.1".to_string(), format!("192.0.2.{}", 20 + i)),
+                            Fam::V6 => ("[fd00::1]".to_string(), format!("[2001:db8::{:x}]", 20 + i)),
+                            Fam::V4Mapped => ("[::ffff:10.0.0.1]".to_string(), format!("[::ffff:192.0.2.{}]", 20 + i)),
+                        };
                         if inbound {
-                            let mut c = dialer.dial(&format!("192.0.2.{}:4{:04}", 20 + i, i));
+                            let mut c = dialer.dial_on(&format!("{ezk_ip}:5060"), &format!("{peer_ip}:4{i:04}"));
                             settle().await;
-                            let opt = request_text("OPTIONS", "sip:ezk@10.0.0.1", &[format!("SIP/2.0/TCP 192.0.2.9:5060;branch=z9hG4bKconn{i}")], "<sip:p@192.0.2.9>;tag=c", "<sip:ezk@10.0.0.1>", &format!("conn-{i}"), 1, "OPTIONS", &[], b"");
-                            c.write(&opt).await;
-                            // ... and an INVITE nobody wants (481 over the reliable connection) that is never ACKed
-                            let inv = request_text("INVITE", "sip:ezk@10.0.0.1", &[format!("SIP/2.0/TCP 192.0.2.9:5060;branch=z9hG4bKconninv{i}")], "<sip:p@192.0.2.9>;tag=c", "<sip:ezk@10.0.0.1>", &format!("conninv-{i}"), 1, "INVITE", &["Contact: <sip:p@192.0.2.9>".into()], b"");
-                            c.write(&inv).await;
-                            peer_conns.push(c);
-                        } else {
-                            let uri: SipUri = format!("sip:x@192.0.2.{}:5060;transport=tcp", 20 + i).parse().unwrap();
-                            if let Ok((h, _)) = endpoint.select_transport(&uri).await {
-                                conn_handles.insert(i, h);
+                            if matches!(usage, ConnUse::Requests | ConnUse::PeerCloses) {
+                                let opt = request_text("OPTIONS", "sip:ezk@10.0.0.1", &[format!("SIP/2.0/TCP 192.0.2.9:5060;branch=z9hG4bKconn{i}")], "<sip:p@192.0.2.9>;tag=c", "<sip:ezk@10.0.0.1>", &format!("conn-{i}"), 1, "OPTIONS", &[], b"");
+                                c.write(&opt).await;
+                                // ... and an INVITE nobody wants (481 over the reliable connection) that is never ACKed
+                                let inv = request_text("INVITE", "sip:ezk@10.0.0.1", &[format!("SIP/2.0/TCP 192.0.2.9:5060;branch=z9hG4bKconninv{i}")], "<sip:p@192.0.2.9>;tag=c", "<sip:ezk@10.0.0.1>", &format!("conninv-{i}"), 1, "INVITE", &["Contact: <sip:p@192.0.2.9>".into()], b"");
+                                c.write(&inv).await;
                             }
+                            peer_conns.insert(i, c);
+                        } else {
+                            let uri: SipUri = format!("sip:x@{peer_ip}:5060;transport=tcp").parse().unwrap();
+                            if let Ok((h, _)) = endpoint.select_transport(&uri).await {
+                                if usage != ConnUse::Idle {
+                                    conn_handles.insert(i, h);
+                                }
+                            }
+                            // the peer's end of the connection the factory made for this scenario (the address is the scenario's own)
+                            let want: std::net::IpAddr = peer_ip.trim_matches(|c| c == '[' || c == ']').parse().unwrap();
+                            let mut made = probe.conns.lock();
+                            if let Some(pos) = made.iter().position(|c| c.peer_addr.ip() == want) {
+                                peer_conns.insert(i, made.remove(pos));
+                            }
+                        }
+                        if matches!(usage, ConnUse::PeerCloses | ConnUse::Garbage) {
+                            conn_followups.push((t + 1000, i, usage));
                         }
                         settle().await;
                     }
+                }
+            }
+            for (due, i, usage) in &conn_followups {
+                if *due == t {
+                    if let Some(c) = peer_conns.get_mut(i) {
+                        match usage {
+                            ConnUse::Garbage => {
+                                c.write(b"\x16\x03\x01\x00\x05hello this is not SIP\r\n\r\n").await;
+                            }
+                            _ => c.close().await,
+                        }
+                    }
+                    settle().await;
                 }
             }
             for (dt, i) in &drops {
@@ -652,10 +884,12 @@ fn bound(case: &Case, t: u64) -> Counts {
                 b.dialogs += 2;
                 b.usages += 2;
             }
-            Kind::Flood { kind, n } => {
-                // only requests that get answered by a server transaction stay (64*T1) in the table
+            Kind::Flood { kind, n, .. } => {
+                // only requests that get answered by a server transaction stay (64*T1) in the table; an abandoned INVITE
+                // had a server transaction (generously: for 64*T1 as well) but the application holds nothing of it any more:
+                // no dialog, usage or pending-cancel entry is accounted for, whatever lifetime the peer asked for
                 match kind {
-                    FloodKind::UnknownRequests | FloodKind::UnmatchedCancels => {
+                    FloodKind::UnknownRequests | FloodKind::UnmatchedCancels | FloodKind::AbandonedInvites => {
                         if t <= a.start + TIMEOUT + 4000 + 1000 {
                             b.tsx += n as usize
                         }
@@ -677,6 +911,7 @@ fn bound(case: &Case, t: u64) -> Counts {
 pub fn check(case: &Case, out: &mut CaseOut) {
     let obs = run(case);
     let has_flood = case.atoms.iter().any(|a| matches!(a.kind, Kind::Flood { .. }));
+    let mut long_life_unanswered = false;
     let never = case.atoms.iter().any(|a| {
         matches!(
             a.kind,
@@ -699,6 +934,54 @@ pub fn check(case: &Case, out: &mut CaseOut) {
         out.class("early-drop");
     }
     for a in &case.atoms {
+        // shapes of the peer-chosen-lifetime and connection dimensions
+        match a.kind {
+            Kind::ServerCall { life, app, .. } => {
+                if life.any() {
+                    out.class("uas-call:peer-lifetime-headers");
+                }
+                // the peer's lifetime is still running when the tables are looked at for the last time
+                let long = [life.expires, life.session_expires, life.min_se].iter().flatten().any(|n| *n >= 400);
+                if long && matches!(app, CallApp::DropAcceptor | CallApp::Hold) {
+                    out.class("uas-call:unanswered+long-peer-lifetime");
+                    long_life_unanswered = true;
+                }
+            }
+            Kind::ServerRequest { life, .. } if life.any() => out.class("server-request:peer-lifetime-headers"),
+            Kind::Flood { kind, life, .. } => {
+                out.class(match kind {
+                    FloodKind::OrphanResponses => "flood:orphan-responses",
+                    FloodKind::StrayAcks => "flood:stray-acks",
+                    FloodKind::UnmatchedCancels => "flood:unmatched-cancels",
+                    FloodKind::UnknownRequests => "flood:unknown-requests",
+                    FloodKind::Retransmissions => "flood:retransmissions",
+                    FloodKind::AbandonedInvites => "flood:abandoned-invites",
+                });
+                if life.any() && !matches!(kind, FloodKind::OrphanResponses | FloodKind::StrayAcks) {
+                    out.class("flood:peer-lifetime-headers");
+                    if kind == FloodKind::AbandonedInvites && [life.expires, life.session_expires, life.min_se].iter().flatten().any(|n| *n >= 400) {
+                        long_life_unanswered = true;
+                    }
+                }
+            }
+            Kind::Conn { inbound, fam, usage } => {
+                out.class(match (inbound, fam) {
+                    (true, Fam::V4) => "conn:in/v4",
+                    (true, Fam::V6) => "conn:in/v6",
+                    (true, Fam::V4Mapped) => "conn:in/v4-mapped",
+                    (false, Fam::V4) => "conn:out/v4",
+                    (false, Fam::V6) => "conn:out/v6",
+                    (false, Fam::V4Mapped) => "conn:out/v4-mapped",
+                });
+                out.class(match usage {
+                    ConnUse::Requests => "conn:requests-or-held",
+                    ConnUse::Idle => "conn:idle",
+                    ConnUse::PeerCloses => "conn:peer-closes",
+                    ConnUse::Garbage => "conn:garbage",
+                });
+            }
+            _ => {}
+        }
         out.class(match a.kind {
             Kind::ClientNonInvite { .. } => "client-non-invite",
             Kind::ClientInvite { .. } => "client-invite",
@@ -710,7 +993,10 @@ pub fn check(case: &Case, out: &mut CaseOut) {
             Kind::Stun { .. } => "stun",
         });
     }
-    if (early_drop && (has_flood || never)) || (has_flood && case.atoms.len() >= 2) {
+    // a connection entry the stack has to get rid of on its own account: never used, closed / broken by the peer, or keyed by
+    // addresses that have more than one spelling
+    let conn_cleanup = case.atoms.iter().any(|a| matches!(a.kind, Kind::Conn { fam, usage, .. } if usage != ConnUse::Requests || fam != Fam::V4));
+    if (early_drop && (has_flood || never)) || (has_flood && case.atoms.len() >= 2) || long_life_unanswered || conn_cleanup {
         out.nontrivial(case);
     }
     let peak = obs.samples.iter().fold(Counts::default(), |mut p, (_, c)| {
@@ -782,15 +1068,19 @@ pub fn property() -> Property {
     Property {
         fuzz: vec![],
         id: "C16",
-        rule: "a case = workload of 3..12 overlapping scenarios on ONE endpoint (DialogLayer + InviteLayer + accepting application, datagram transport, connection factory and listener): client non-INVITE / INVITE transactions (peer never answers / provisional only / 200 / 486, after 1 ms .. 33 s), server requests with retransmissions, UAS calls (accept with/without ACK, reject, acceptor dropped, acceptor held; peer CANCEL / BYE), UAC calls through Initiator (ringing, 200 with retransmission, 486, silence), floods of 100..2000 orphan responses / stray ACKs / unmatched CANCELs / unknown requests / retransmissions, inbound and outbound connections, STUN binding requests (answered or not); every scenario's application objects are optionally dropped 0 ms .. 40 s after its start (task abort). Tables sampled every 500 ms of virtual time and once after everything is dropped and 64*T1 + 32 s + T4 + 64 s have passed. floods sub-check enumerates flood kind x size x companion scenario. Non-trivial = an early drop together with a flood or a never-answering peer, or a flood next to another live scenario; distinct by workload.",
+        rule: "a case = workload of 3..12 overlapping scenarios on ONE endpoint (DialogLayer + InviteLayer + accepting application, datagram transport, connection factory and listener): client non-INVITE / INVITE transactions (peer never answers / provisional only / 200 / 486, after 1 ms .. 33 s), server requests with retransmissions, UAS calls (accept with/without ACK, reject, acceptor dropped, acceptor held; peer CANCEL / BYE), UAC calls through Initiator (ringing, 200 with retransmission, 486, silence), floods of 100..2000 orphan responses / stray ACKs / unmatched CANCELs / unknown requests / retransmissions / INVITEs the application takes and abandons unanswered at once, inbound and outbound connections (both ends IPv4, IPv6 or IPv4-mapped IPv6 as a dual-stack socket reports them; used for requests / handle held, never used, closed by the peer, fed bytes that are not SIP), STUN binding requests (answered or not). Every request the peer originates (call INVITE, MESSAGE, request floods) carries, 6 times out of 10, lifetime headers of the peer's choosing: Expires and/or Session-Expires and/or Min-SE, 0 s .. 2^32-1 s. Every scenario's application objects are optionally dropped 0 ms .. 40 s after its start (task abort). Tables sampled every 500 ms of virtual time and once after everything is dropped and 64*T1 + 32 s + T4 + 64 s have passed. floods sub-check enumerates flood kind x size x companion scenario (+ request floods x lifetime headers); calls enumerates application behaviour x lifetime headers x drop time x CANCEL (+ MESSAGE x lifetime headers); conns enumerates direction x address family x use x drop time x start. Non-trivial = an early drop together with a flood or a never-answering peer, or a flood next to another live scenario, or an unanswered call / abandoned-INVITE flood whose peer-chosen lifetime outlasts the observation, or a connection the stack must clean up by itself (unused, peer-closed, garbage, non-IPv4 spelling); distinct by workload.",
         assumptions: vec![
             "table sizes through the read-only hooks H3 (transactions, managed transports, pending STUN, dialogs, backlog, usages, pending-cancel entries)",
-            "the bound is a generous per-scenario cap (e.g. 4 transactions per call) plus, for floods of requests the stack answers itself, one transaction per request for 64*T1; it detects growth with the number of unmatched messages, not off-by-one accounting",
+            "the bound is a generous per-scenario cap (e.g. 4 transactions per call) plus, for floods of requests the stack answers itself or the application abandons, one transaction per request for 64*T1 (no dialog / usage / pending-cancel entries: the application holds nothing of an abandoned INVITE); it detects growth with the number of unmatched messages, not off-by-one accounting",
+            "lifetimes the peer states in Expires / Session-Expires / Min-SE are not among 'the longest protocol timer' the statement waits for (they are unbounded peer input); what the stack does with them (ignore, reject on expiry, ...) is not asserted, only that no table entry outlives the application objects + RFC transaction timers because of them",
+            "connection addresses are whatever StreamingTransport::local_addr / peer_addr report; no assertion on which spelling ezk uses on the wire, only that the entry goes away (32 s idle timer, EOF, decode error)",
             "single-threaded cooperative schedule",
         ],
-        explanation: "floods sub-check exhaustive over its product; workloads sampled",
+        explanation: "floods, calls and conns sub-checks exhaustive over their products; workloads sampled",
         subs: vec![
             enum_sub("floods", flood_cases, check),
+            enum_sub("calls", call_cases, check),
+            enum_sub("conns", conn_cases, check),
             prop_sub("workload", strategy, 600, 20000, check),
         ],
     }
